@@ -5,19 +5,21 @@ from . import util
 
 REP_COUNTS = range(0, 8)
 
-def mu_class(K):
-    W, SPIN, RL = K['MU_WLOCK'], K['MU_SPINLOCK'], K['MU_RLOCK']
-    field = K['MU_RLOCK_FIELD'] & 0xFFFFFFFF
-    shift = RL.bit_length() - 1
-    if RL != 1 << shift or field != (0xFFFFFFFF >> shift) << shift or W >= RL or SPIN >= RL:
-        raise AnalysisBroken('mutex word layout: reader count is not the top field of the word (MU_RLOCK=0x%x MU_RLOCK_FIELD=0x%x)' % (RL, field))
-    lows = range(0, RL)
-    def universe(hold, spin):
+class MuWord(WordClass):
+    def __init__(self, K):
+        self.W, self.SPIN, RL = K['MU_WLOCK'], K['MU_SPINLOCK'], K['MU_RLOCK']
+        field = K['MU_RLOCK_FIELD'] & 0xFFFFFFFF
+        self.shift = RL.bit_length() - 1
+        if RL != 1 << self.shift or field != (0xFFFFFFFF >> self.shift) << self.shift or self.W >= RL or self.SPIN >= RL:
+            raise AnalysisBroken('mutex word layout: reader count is not the top field of the word (MU_RLOCK=0x%x MU_RLOCK_FIELD=0x%x)' % (RL, field))
+        self.RL = RL
+        WordClass.__init__(self, 'mu', 'nsync_mu_s_.word', None, None, small_model=True, count_shift=self.shift, count_mask=0xFFFFFFFF >> self.shift)
+    def universe(self, hold, spin):
         out = set()
-        for low in lows:
-            if spin == 1 and not low & SPIN:
+        for low in range(0, self.RL):
+            if spin == 1 and not low & self.SPIN:
                 continue
-            w = 1 if low & W else 0
+            w = 1 if low & self.W else 0
             for c in REP_COUNTS:
                 if w and c:
                     continue          # invariant: never a writer and readers
@@ -25,19 +27,26 @@ def mu_class(K):
                     continue
                 if hold == 'R' and (w or c == 0):
                     continue
-                out.add(low | (c << shift))
+                out.add(low | (c << self.shift))
         return frozenset(out)
-    def lockbits(v):
-        return (1 if v & W else 0, (v & 0xFFFFFFFF) >> shift, 1 if v & SPIN else 0)
-    return WordClass('mu', 'nsync_mu_s_.word', universe, lockbits, small_model=True, count_shift=shift, count_mask=0xFFFFFFFF >> shift)
+    def lockbits(self, v):
+        return (1 if v & self.W else 0, (v & 0xFFFFFFFF) >> self.shift, 1 if v & self.SPIN else 0)
+
+class CvWord(WordClass):
+    def __init__(self, K):
+        self.SPIN, self.NE = K['CV_SPINLOCK'], K['CV_NON_EMPTY']
+        WordClass.__init__(self, 'cv', 'nsync_cv_s_.word', None, None)
+    def universe(self, hold, spin):
+        m = self.SPIN | self.NE
+        return frozenset(v for v in range(0, m + 1) if (v & ~m) == 0 and (spin != 1 or v & self.SPIN))
+    def lockbits(self, v):
+        return (0, 0, 1 if v & self.SPIN else 0)
+
+def mu_class(K):
+    return MuWord(K)
 
 def cv_class(K):
-    SPIN, NE = K['CV_SPINLOCK'], K['CV_NON_EMPTY']
-    def universe(hold, spin):
-        return frozenset(v for v in range(0, (SPIN | NE) + 1) if (v & ~(SPIN | NE)) == 0 and (spin != 1 or v & SPIN))
-    def lockbits(v):
-        return (0, 0, 1 if v & SPIN else 0)
-    return WordClass('cv', 'nsync_cv_s_.word', universe, lockbits)
+    return CvWord(K)
 
 # Library functions that the mutex analysis does not look into, each with the reason why that is sound.
 OPAQUE = {
@@ -354,6 +363,19 @@ def analyse(ctx, engine_cls=MuEngine):
     key = (ctx.facts, engine_cls.__name__)
     if key in _RESULT:
         return _RESULT[key]
+    import os, pickle, sys, hashlib
+    sys.setrecursionlimit(200000)
+    src = b''.join(open(os.path.join(os.path.dirname(os.path.abspath(__file__)), f), 'rb').read() for f in ('symex.py', 'mumodel.py', 'util.py', 'ir.py', 'cfg.py'))
+    pk = os.path.join(ctx.facts, 'mueng-%s.pkl' % hashlib.sha256(src).hexdigest()[:12])
+    if os.path.exists(pk) and engine_cls is MuEngine:
+        try:
+            with open(pk, 'rb') as f:
+                eng, runs = pickle.load(f)
+            ctx._mods['C'] = eng.mod
+            _RESULT[key] = (eng, runs)
+            return eng, runs
+        except Exception:
+            pass
     mod = ctx.mod('C')
     K = ctx.probe
     eng = engine_cls(mod, K)
@@ -365,4 +387,12 @@ def analyse(ctx, engine_cls=MuEngine):
         exits = eng.run(e['fn'], e['args'], ghost=e['ghost'], nn=e['nn'], label=e['label'])
         runs.append((e, exits))
     _RESULT[key] = (eng, runs)
+    if engine_cls is MuEngine:
+        try:
+            tmp = pk + '.tmp.%d' % os.getpid()
+            with open(tmp, 'wb') as f:
+                pickle.dump((eng, runs), f, protocol=pickle.HIGHEST_PROTOCOL)
+            os.replace(tmp, pk)
+        except Exception:
+            pass
     return eng, runs
